@@ -2,7 +2,7 @@
 
 use crate::checks::common::{lookup_probes, verify_archive_bytes};
 use crate::gen::{self, SizeClass};
-use crate::io::{AInst, Inst, Pend};
+use crate::io::{AInst, Inst, Pend, Sched};
 use crate::obs::{guard, Ctx};
 use crate::refimpl as R;
 use crate::rng::hash_u64s;
@@ -58,9 +58,18 @@ pub fn run(ctx: &mut Ctx) {
         let asyncm = rng.chance(1, 2);
         let api = if asyncm { "PMTiles::to_async_writer" } else { "PMTiles::to_writer" };
         let mat = json!({"archive": l.describe(), "start_position": p, "prefill_len": prefill_len, "api": api});
+        // a third of the streams accept only part of most writes (the property holds for every Write + Seek)
+        let short_writes = i % 3 == 1 && l.tiles.values().map(|c| c.len()).sum::<usize>() < (4 << 20);
+        let wsched = Sched::Random(crate::rng::Rng::new(rng.next()), *rng.pick(&[50usize, 3000]));
+        if short_writes {
+            ctx.count("streams_with_short_writes");
+        }
         let (res, data, pos) = if asyncm {
             let mut s = AInst::new(prefill.clone());
             s.c.pos = p;
+            if short_writes {
+                s.c.wsched = wsched.clone();
+            }
             s.pend = Pend::Random(ctx.rng("c18.pend", i), 1, 4);
             let pm = l.build_async();
             let r = guard(|| block_on(pm.to_async_writer(&mut s)));
@@ -68,6 +77,9 @@ pub fn run(ctx: &mut Ctx) {
         } else {
             let mut s = Inst::new(prefill.clone());
             s.c.pos = p;
+            if short_writes {
+                s.c.wsched = wsched.clone();
+            }
             let pm = l.build();
             let r = guard(|| pm.to_writer(&mut s));
             (r, s.c.data, s.c.pos)
